@@ -15,6 +15,8 @@ import (
 	"net/http/httptest"
 	"strconv"
 	"strings"
+	"sync"
+	"sync/atomic"
 
 	"github.com/smallstep/certificates/api"
 	"github.com/smallstep/certificates/authority"
@@ -191,6 +193,99 @@ func runACME(ac *ACMECase) (string, string) {
 		}
 	}
 	return in, impl
+}
+
+// runRaceACME: K simultaneous revocations of one ACME-issued certificate (revoke-cert by the owning account, revoke-cert by the
+// certificate's key, /1.0/revoke over mTLS) and Renewers simultaneous renewals; afterwards one more renewal and one more revoke-cert.
+// Exactly one revocation is acknowledged, every other one is told alreadyRevoked (400), the renewal afterwards is refused.
+var (
+	raceACMEOnce sync.Once
+	raceACME     *acmeenv.Env
+	raceAcct     *acmeenv.Acct
+)
+
+func runRaceACME(rc *Race) (string, string, string) {
+	raceACMEOnce.Do(func() {
+		e, err := acmeenv.New([]acmeenv.ProvSpec{{Name: "acme"}}, nil)
+		if err != nil {
+			panic(err)
+		}
+		raceACME = e
+		if raceAcct, err = e.NewAccount("acme", acmeenv.NewKey("es256", 1)); err != nil {
+			panic(err)
+		}
+	})
+	e := raceACME
+	is, err := e.Issue(raceAcct, "h"+randName()+".example.com")
+	if err != nil {
+		panic(err)
+	}
+	serial := is.Cert.SerialNumber.String()
+	path := acmeenv.Path("acme", "revoke-cert")
+	pl, _ := json.Marshal(map[string]any{"certificate": base64.RawURLEncoding.EncodeToString(is.Cert.Raw), "reason": 1})
+	byKey := func() []byte {
+		k := is.CertKey
+		s := &acmeenv.Shape{Ser: "flat", Protected: map[string]any{"alg": k.DefaultAlg(), "nonce": e.Nonce("acme"),
+			"url": acmeenv.URL(path), "jwk": acmeenv.JWKMap(k.JWK())}, Payload: pl, NSigs: 1, SignKey: k}
+		b, _ := s.Build()
+		return b
+	}
+	var ok, already, other, allowed int32
+	count := func(code int, body []byte) {
+		var pd struct{ Type string }
+		json.Unmarshal(body, &pd)
+		switch {
+		case code == 200:
+			atomic.AddInt32(&ok, 1)
+		case code == 400 && (pd.Type == "" || strings.HasSuffix(pd.Type, ":alreadyRevoked")):
+			atomic.AddInt32(&already, 1)
+		default:
+			atomic.AddInt32(&other, 1)
+		}
+	}
+	var wg sync.WaitGroup
+	barrier := make(chan struct{})
+	for i := 0; i < rc.K; i++ {
+		var body []byte // signed (with its nonce) before the barrier
+		switch i % 3 {
+		case 0:
+			body = e.KidBody(raceAcct, "acme", path, pl)
+		case 1:
+			body = byKey()
+		}
+		wg.Add(1)
+		go func(i int) {
+			defer wg.Done()
+			<-barrier
+			if body != nil {
+				rec := e.Do("POST", path, body)
+				count(rec.Code, rec.Body.Bytes())
+			} else {
+				count(serveAuth(e.Auth, api.Revoke, "/1.0/revoke", map[string]any{"serial": serial, "passive": true, "reasonCode": 1, "reason": "race"}, is.Cert), nil)
+			}
+		}(i)
+	}
+	for i := 0; i < rc.Renewers; i++ {
+		wg.Add(1)
+		go func() {
+			defer wg.Done()
+			<-barrier
+			if serveAuth(e.Auth, api.Renew, "/1.0/renew", nil, is.Cert) == 201 {
+				atomic.AddInt32(&allowed, 1)
+			}
+		}()
+	}
+	close(barrier)
+	wg.Wait()
+	after := serveAuth(e.Auth, api.Renew, "/1.0/renew", nil, is.Cert)
+	rec := e.Post(raceAcct, path, pl)
+	in := fmt.Sprintf("race k=%d acme=1 renewers=%d", rc.K, rc.Renewers)
+	impl := fmt.Sprintf("ok=%d already=%d other=%d after=%d again=%d", ok, already, other, after, rec.Code)
+	want := fmt.Sprintf("ok=1 already=%d other=0 after=401 again=400", rc.K-1)
+	if impl != want {
+		impl = "VIOLATION " + impl
+	}
+	return in, impl, want
 }
 
 func randName() string { return strconv.FormatUint(uint64(must(randUint())), 36) }
